@@ -762,10 +762,11 @@ def save_bytes(alphabet, tier, history, env_extra, tag):
 def check_c14(tier, deadline):
     rep = Report("C14", tier, "model_checking")
     depth = 4 if tier == "quick" else 6
-    envs = [("unset", {}), ("0x55", {"MALLOC_PERTURB_": "85"}), ("0xAA", {"MALLOC_PERTURB_": "170"})]
+    # the first process also runs the "same call after an intermediate save" twin on every transition up to depth 3 / 4; the perturbed ones only need the per-state file digests
+    envs = [("unset", {"VF_TWIN_DEPTH": "3" if tier == "quick" else "4"}), ("0x55", {"MALLOC_PERTURB_": "85", "VF_NO_TWIN": "1"}), ("0xAA", {"MALLOC_PERTURB_": "170", "VF_NO_TWIN": "1"})]
     runs, digs = [], []
     for tag, env in envs:
-        d = run_api("plain", "build", "C14", depth, tier, deadline / 5, env_extra=env, tag="c14" + tag)
+        d = run_api("plain", "build", "C14", depth, tier, max(deadline / 5, 90 if tier == "quick" else 0), env_extra=env, tag="c14" + tag)
         absorb_api(rep, d, {"C14"}, crash_prop="C14")
         digs.append(read_digests(os.path.join(d["_scratch"], "digests.txt")))
         runs.append(d)
@@ -776,6 +777,8 @@ def check_c14(tier, deadline):
     for k, (dg0, hist) in digs[0].items():
         others = [dd.get(k) for dd in digs[1:]]
         if any(o is None for o in others):
+            if any(r["deadline_hit"] or r["capped"] for r in runs):
+                continue   # a run that was cut short simply did not get there
             rep.add("harness/state_missing_in_perturbed_run", "state key not reached under a different MALLOC_PERTURB_ (replay non-determinism)", dict(base, history=hist))
             continue
         joined += 1
